@@ -45,7 +45,7 @@ class C28(Check):
     design_ref = "§6 C28"
     rule = ("a Valet (plain or TLS stub) with idle timeout T drawn from {0.5,1,2} and 1-3 scripted peers (dribbled request "
             "heads and bodies, Connection: close and HTTP/1.0 requests answered by long streamed responses with silent "
-            "gaps, keep-alive requests left idle), a seeded schedule of server service passes, clock advances (multiples "
+            "gaps, a pipe capacity drawn per run (with small pipes and large pieces every pass ends in a partial send, the peer reading 7 / 40 / all bytes at a time), keep-alive requests left idle), a seeded schedule of server service passes, clock advances (multiples "
             "of 1/8 s), peer sends of 1-n bytes, peer reads and peer closes; non-trivial = at least one connection was "
             "closed by the server; distinct = digest of per-step (open connections, clock)")
     components = {"real": ["ioflo.aio.http.serving.Valet/Requestant/Responder", "ioflo.aio.tcp.serving.Server/ServerTls/Incomer/IncomerTls",
@@ -53,7 +53,7 @@ class C28(Check):
                   "stub": ["socket module", "TLS record layer / handshake", "peers", "WSGI app (plan driven)", "store clock advanced by the simulator"]}
     assumptions = ["'activity' is a byte accepted by send or returned by recv on the connection's socket (TLS: record bytes)",
                    "safety only: nothing requires an idle connection to be dropped promptly"]
-    required_probes = ["timer-close", "response-complete-close", "persisted-survived", "tls", "plain", "active-beyond-timeout"]
+    required_probes = ["timer-close", "response-complete-close", "persisted-survived", "tls", "plain", "active-beyond-timeout", "partial-send-beyond-timeout"]
     quick_runs = 8000
     thorough_runs = 400000
     shrink_fields = ["schedule", "peers"]
@@ -78,7 +78,9 @@ class C28(Check):
         shapes = []
         for i in range(npeers):
             n = g.randint(1, 10)
-            shapes.append({"kind": g.choice(["stream", "stream", "fixed"]), "status": "200 OK", "pieces": [b"%d:" % i + b"x" * g.randint(1, 12) for _ in range(n)],
+            big = g.random() < 0.3      # pieces larger than the pipe: every server pass ends in a partial send
+            shapes.append({"kind": g.choice(["stream", "stream", "fixed"]), "status": "200 OK",
+                           "pieces": [b"%d:" % i + b"x" * (g.randint(100, 600) if big else g.randint(1, 12)) for _ in range(n)],
                            "gaps": [g.choice([0, 1, 1, 3, 8]) for _ in range(n)], "headers": [], "pregap": g.choice([0, 2, 6])})
         s = S.sched
         sched = []
@@ -91,10 +93,11 @@ class C28(Check):
             elif r < 0.80:
                 sched.append(["p", s.randint(0, npeers - 1), s.choice([1, 2, 5, 30, 300])])
             elif r < 0.95:
-                sched.append(["pr", s.randint(0, npeers - 1)])
+                sched.append(["pr", s.randint(0, npeers - 1), s.choice([1 << 16, 1 << 16, 40, 7])])
             else:
                 sched.append(["pc", s.randint(0, npeers - 1)])
-        return {"tls": g.random() < 0.5, "timeout": g.choice([0.5, 1.0, 2.0]), "peers": peers, "shapes": shapes, "schedule": sched}
+        return {"tls": g.random() < 0.5, "timeout": g.choice([0.5, 1.0, 2.0]), "peers": peers, "shapes": shapes, "schedule": sched,
+                "cap": g.choice([1 << 16, 1 << 16, 96, 200])}
 
     def execute(self, plan):
         from ioflo.aio.http import serving
@@ -106,9 +109,10 @@ class C28(Check):
         T = plan["timeout"]
         out.probe("tls" if tls else "plain")
         g_dummy = __import__("random").Random(1)
-        with http_world(cap=1 << 16) as net:
+        cap = plan.get("cap", 1 << 16)
+        with http_world(cap=cap) as net:
             store = Store(stamp=0.0)
-            ctx = StubContext(64)
+            ctx = StubContext(min(64, max(4, cap - 16)))
             app = PlanApp(plan["shapes"])
             kw = dict(store=store, app=app, ha=("", HPORT), bufsize=4096, timeout=T)
             if tls:
@@ -191,9 +195,10 @@ class C28(Check):
                     p = peers[st[1] % len(peers)]
                     if p["conn"] and not p["raw"].closed and (not tls or p["far"].done):
                         try:
-                            p["got"].extend(p["far"].recv(1 << 16))
+                            p["got"].extend(p["far"].recv(st[2] if len(st) > 2 else 1 << 16))
                         except OSError:
                             pass
+                    net.deliver_all()
                 elif code == "pc":
                     p = peers[st[1] % len(peers)]
                     if not p["raw"].closed:
@@ -236,6 +241,8 @@ class C28(Check):
                         sock = getattr(ix.cs, "sock", ix.cs)
                         if sock.last_activity is not None and store.stamp - sock.created >= T and store.stamp - sock.last_activity < T:
                             out.probe("active-beyond-timeout")
+                            if cap < 1000 and ix.txes:
+                                out.probe("partial-send-beyond-timeout")
                         rq = valet.reqs.get(ca)
                         if rq is not None and rq.persisted and store.stamp - sock.last_activity >= T:
                             out.probe("persisted-survived")
